@@ -77,7 +77,7 @@ func runC20(p *Prog, r *Report) {
 	pm := q.Fn(R, "macat", "App", "printMsg")
 	if pm.OK() {
 		tags := map[string]string{}
-		for _, e := range pm.evs {
+		for _, e := range pm.All() {
 			if e.Kind == "store" && strings.HasSuffix(e.What, "][0]") && strings.HasPrefix(e.What, "$makeslice") {
 				tags[e.Args[0]] = e.What
 			}
